@@ -43,6 +43,12 @@ def scenarios(tier):
     L.append((SC.scn("S8-source-edited-during-oob-rebuild", we, ["redo-ifchange top", "redo-ifchange bb"],
                      setup=[["ifchange", ["top"]], ["edit", "src", "2"]], on_ask={"edit-src": [["edit", "src", "1"]]},
                      visible=VIS), 1 if q else 2))
+    # two forced builds of one target: the second finds it locked, waits, and must then decide on the record as the first
+    # left it -- not on what it read before waiting (x already built / never built)
+    L.append((SC.scn("S9-two-forced-redo-x-rebuild", w["one"], ["redo --no-log x", "redo --no-log x"], setup=[["ifchange", ["x"]]],
+                     visible=VIS, forced={"x": 2}), 1 if q else 2))
+    L.append((SC.scn("S10-two-forced-redo-x-first-build", w["one"], ["redo --no-log x", "redo --no-log x"], visible=VIS,
+                     forced={"x": 2}), 1 if q else 2))
     if not q:
         L.append((SC.scn("S6b-tree-kill-shared-dep", w["shared"], ["redo-ifchange t1", "redo-ifchange t2"],
                          visible=VIS, kill_roots=["T0"], expect_ok=["T1"]), 2))
@@ -102,6 +108,22 @@ def oracle(scn, res):
                     ender == k or ender.startswith(k + ".") for k in killed):
                 out.append(({"kind": "execution-never-recorded", "scenario": scn["name"], "target": tgt},
                             {"script_end_by": ender, "roots": res["roots"]}))
+    # (3) "the result of an execution is recorded before any other process may decide whether to build that target": seen
+    # from outside, a process that decided on a stale record takes the other's fresh output for a file of the user's
+    # ("you modified it; skipping"), skips a forced build, or records the built target as a source
+    if res["verdict"] == "done" and not scn.get("kill_roots"):
+        for nm, err in res["stderr"].items():
+            if "you modified it" in err or "not redoing" in err:
+                out.append(({"kind": "other-invocations-output-taken-for-user-file", "scenario": scn["name"]}, {"stderr": err[-400:]}))
+        for t, n_want in (scn.get("forced") or {}).items():
+            n = sum(1 for l in res["trace"] if l.startswith("B %s " % t))
+            if n != n_want and all(rc == 0 for rc in res["roots"].values()):
+                out.append(({"kind": "forced-build-skipped", "scenario": scn["name"], "count": n}, {"trace": res["trace"]}))
+        gen = {r[0]: r[1] for r in (res.get("dbrows") or [])}
+        built = {l.split(" ")[1] for l in res["trace"] if l.startswith("E ")}
+        for t in sorted(built):
+            if t in gen and not gen[t] and all(rc == 0 for rc in res["roots"].values()):
+                out.append(({"kind": "built-target-not-recorded-as-generated", "scenario": scn["name"], "target": t}, {"row": gen.get(t)}))
     # the surviving invocation must finish its job correctly
     if res["verdict"] == "done":
         for n in scn.get("expect_ok", []):
